@@ -614,7 +614,7 @@ Proof.
           -- right. exists m. auto.
         * intros [[m [-> Hm]]|[m [-> Hm]]].
           -- cbn [p_ops] in Hm. apply C in Hm. destruct Hm as [[_ X]|[Hmn Hm]]; [discriminate|].
-             destruct (proj2 (Hl (OAckOp m (p_id p))) (or_introl (ex_intro _ m (conj eq_refl Hm)))) as [X|X]; [inversion X; contradiction | exact X].
+             destruct (proj2 (Hl (OAckOp m (p_id p))) (or_introl (ex_intro _ m (conj eq_refl Hm)))) as [X|X]; [inversion X; congruence | exact X].
           -- cbn [p_srs] in Hm.
              destruct (proj2 (Hl (OAckSr m (p_id p))) (or_intror (ex_intro _ m (conj eq_refl Hm)))) as [X|X]; [discriminate | exact X].
       + cbn [step]. unfold ack_op. rewrite P, N.eqb_refl. cbn [negb]. rewrite M.
@@ -630,7 +630,7 @@ Proof.
           -- cbn [p_ops] in Hm.
              destruct (proj2 (Hl (OAckOp m (p_id p))) (or_introl (ex_intro _ m (conj eq_refl Hm)))) as [X|X]; [discriminate | exact X].
           -- cbn [p_srs] in Hm. apply C in Hm. destruct Hm as [[_ X]|[Hmn Hm]]; [discriminate|].
-             destruct (proj2 (Hl (OAckSr m (p_id p))) (or_intror (ex_intro _ m (conj eq_refl Hm)))) as [X|X]; [inversion X; contradiction | exact X].
+             destruct (proj2 (Hl (OAckSr m (p_id p))) (or_intror (ex_intro _ m (conj eq_refl Hm)))) as [X|X]; [inversion X; congruence | exact X].
       + cbn [step]. unfold ack_sr. rewrite P, N.eqb_refl. cbn [negb]. rewrite M.
         destruct (finish_if_complete (sto s) (MkPending (p_id p) (p_ops p) l2)) as [[so r] pub]. reflexivity. }
   destruct STEP as [p' [Pid' [NDo' [NDr' [Hl' St]]]]].
@@ -641,23 +641,312 @@ Proof.
     { destruct l' as [|a' t]; [reflexivity|]. exfalso.
       apply (proj1 (complete_spec (p_id p) p') Cp a'). apply Hl'. left. reflexivity. }
     subst l'. rewrite Spl. cbn [N.eqb Pos.eqb run fst snd set_sto sto pend completed stat a_ops a_srs].
-    repeat split; auto; try congruence.
-    + constructor; [reflexivity | constructor].
-    + eexists. split; [left; reflexivity|]. cbn. congruence.
+    split; [reflexivity|]. split; [congruence|]. split; [constructor; [reflexivity | constructor]|].
+    split; [eexists; split; [left; reflexivity | cbn; congruence]|]. auto.
   - (* not complete: some ack is left, continue *)
     assert (Hne' : l' <> []).
     { intros ->. assert (X : complete p' = true); [|congruence].
       apply (complete_spec (p_id p)). intros a' Ha'. apply Hl' in Ha'. contradiction. }
     set (s1 := set_sto s (MkStore (Some p') (completed (sto s)) (ctr (sto s)) (splitters (sto s)))).
-    specialize (IH s1 p' id).
     assert (P1 : pend (sto s1) = Some p') by reflexivity.
-    assert (Pid1 : p_id p' = id) by congruence.
     assert (Spl1 : splitters (sto s1) = 1) by exact Spl.
-    rewrite <- Pid, <- Pid' in IH. rewrite <- Pid' in Hl'.
-    specialize (IH P1 eq_refl Spl1 NDo' NDr' NDl Hl' Hne').
+    specialize (IH s1 p' (p_id p) P1 Pid' Spl1 NDo' NDr' NDl Hl' Hne').
     destruct (run c s1 l') as [s2 bs] eqn:R. cbn [fst snd] in *.
     destruct IH as [A [B [C [[b [Hb1 Hb2]] [D [E F]]]]]].
-    repeat split; auto; try congruence.
-    + constructor; [reflexivity | exact C].
-    + exists b. split; [right; exact Hb1 | congruence].
+    split; [exact A|]. split; [congruence|]. split; [constructor; [reflexivity | exact C]|].
+    split; [exists b; split; [right; exact Hb1 | congruence]|]. auto.
 Qed.
+
+(* ================================================================ the C15 theorems *)
+
+(* T1 *)
+Lemma deploy_only_full_live_proof : forall c l o d,
+  let s' := fst (step c (exec c l) o) in
+  In d (o_deps (snd (step c (exec c l) o))) ->
+  length (d_ops d) = wc c /\ length (d_srs d) = wc c /\ NoDup (d_ops d) /\ NoDup (d_srs d) /\
+  (forall n, In n (d_ops d) -> In n (ops s') /\ live_in c s' (true, n)) /\
+  (forall n, In n (d_srs d) -> In n (srs s') /\ live_in c s' (false, n)).
+Proof.
+  intros c l o d s' Hd. destruct (step_deps c (exec c l) o d (exec_inv c l) Hd) as [_ K]. destruct K. auto 10.
+Qed.
+
+(* T2 *)
+Lemma running_only_live_proof : forall c l o s1,
+  pre (exec c l) o = Some s1 ->
+  let s' := fst (step c (exec c l) o) in
+  stat s' = Running ->
+  (forall n, In n (a_ops s') -> In n (ops s') /\ live_in c s' (true, n)) /\
+  (forall n, In n (a_srs s') -> In n (srs s') /\ live_in c s' (false, n)).
+Proof.
+  intros c l o s1 P s' H. unfold s' in *. destruct (step_eval c _ o s1 P) as [E _]. rewrite E in *.
+  apply evaluate_running; [eapply pre_inv; [apply exec_inv | exact P] | exact H].
+Qed.
+
+Lemma deregistered_operator_pauses_proof : forall c l n,
+  stat (exec c l) = Running -> In n (a_ops (exec c l)) -> stat (fst (step c (exec c l) (ODeregOp n))) = Paused.
+Proof.
+  intros c l n E Hn. set (s := exec c l) in *.
+  destruct (step_eval c s (ODeregOp n) _ eq_refl) as [-> _]. apply unhealthy_paused; [exact E|].
+  left. exists n. split; [exact Hn|]. cbn [purge ops]. intros X. apply filter_In in X. destruct X as [X _].
+  apply In_rem in X. destruct X as [_ X]. contradiction.
+Qed.
+
+Lemma deregistered_runner_pauses_proof : forall c l n,
+  stat (exec c l) = Running -> In n (a_srs (exec c l)) -> stat (fst (step c (exec c l) (ODeregSr n))) = Paused.
+Proof.
+  intros c l n E Hn. set (s := exec c l) in *.
+  destruct (step_eval c s (ODeregSr n) _ eq_refl) as [-> _]. apply unhealthy_paused; [exact E|].
+  right. exists n. split; [exact Hn|]. cbn [purge srs]. intros X. apply filter_In in X. destruct X as [X _].
+  apply In_rem in X. destruct X as [_ X]. contradiction.
+Qed.
+
+Lemma expired_operator_pauses_proof : forall c l n t o s1,
+  stat (exec c l) = Running -> In n (a_ops (exec c l)) ->
+  hb_get (true, n) (hb (exec c l)) = Some t -> t + deadline c < now (exec c l) ->
+  pre (exec c l) o = Some s1 -> o <> ORegOp n ->
+  stat (fst (step c (exec c l) o)) = Paused.
+Proof.
+  intros c l n t o s1 E Hn Hg Hlt P Hne. set (s := exec c l) in *.
+  destruct (step_eval c s o s1 P) as [-> _].
+  destruct (pre_keeps s o s1 (true, n) t P E) as [K1 [K2 [K3 [K4 K5]]]].
+  - intros m -> X. inversion X; subst. contradiction.
+  - intros m _ X. discriminate.
+  - apply hb_get_In, Hg.
+  - apply unhealthy_paused; [exact K3|]. left. exists n. split; [rewrite K4; exact Hn|].
+    eapply dead_not_in_purged_op; [exact K1 | rewrite K2; exact Hlt].
+Qed.
+
+Lemma expired_runner_pauses_proof : forall c l n t o s1,
+  stat (exec c l) = Running -> In n (a_srs (exec c l)) ->
+  hb_get (false, n) (hb (exec c l)) = Some t -> t + deadline c < now (exec c l) ->
+  pre (exec c l) o = Some s1 -> o <> ORegSr n ->
+  stat (fst (step c (exec c l) o)) = Paused.
+Proof.
+  intros c l n t o s1 E Hn Hg Hlt P Hne. set (s := exec c l) in *.
+  destruct (step_eval c s o s1 P) as [-> _].
+  destruct (pre_keeps s o s1 (false, n) t P E) as [K1 [K2 [K3 [K4 K5]]]].
+  - intros m _ X. discriminate.
+  - intros m -> X. inversion X; subst. contradiction.
+  - apply hb_get_In, Hg.
+  - apply unhealthy_paused; [exact K3|]. right. exists n. split; [rewrite K5; exact Hn|].
+    eapply dead_not_in_purged_sr; [exact K1 | rewrite K2; exact Hlt].
+Qed.
+
+Lemma tick_only_running_proof : forall c s,
+  o_started (snd (step c s OTick)) <> [] -> stat s = Running /\ o_started (snd (step c s OTick)) = a_srs s.
+Proof.
+  intros c s H. cbn [step] in *. destruct (stat s); try (cbn in H; contradiction).
+  destruct (create_checkpoint (sto s) (a_ops s) (a_srs s)) as [so [id|]]; cbn in *; [auto | contradiction].
+Qed.
+
+(* T3 *)
+Lemma redeploy_from_latest_proof : forall c l o d,
+  let s' := fst (step c (exec c l) o) in
+  In d (o_deps (snd (step c (exec c l) o))) ->
+  stat s' = Starting /\ d_ops d = a_ops s' /\ d_srs d = a_srs s' /\
+  d_ck d = map (fun _ => completed (sto s')) (d_ops d) /\ dep_ck s' = completed (sto s').
+Proof.
+  intros c l o d s' Hd. destruct (step_deps c (exec c l) o d (exec_inv c l) Hd) as [_ K]. destruct K. auto 10.
+Qed.
+
+Lemma splitter_resumes_from_deployed_checkpoint_proof : forall c s,
+  stat s = Starting -> o_split (snd (step c s (OFin true))) = dep_ck s + 1.
+Proof.
+  intros c s E. cbn [step]. rewrite E. destruct (evaluate c (set_stat s Running)) as [s2 ds]. reflexivity.
+Qed.
+
+Lemma redeploy_when_enough_proof : forall c l o s1,
+  pre (exec c l) o = Some s1 -> stat s1 = Init \/ stat s1 = Paused ->
+  let s' := fst (step c (exec c l) o) in
+  (stat s' = Starting /\ exists d, o_deps (snd (step c (exec c l) o)) = [d]) \/
+  (stat s' = stat s1 /\ ((length (ops s') < wc c)%nat \/ (length (srs s') < wc c)%nat)).
+Proof.
+  intros c l o s1 P E s'. unfold s'. destruct (step_eval c _ o s1 P) as [-> [-> _]].
+  unfold evaluate. set (sp := purge c s1). change (stat sp) with (stat s1).
+  assert (X : forall b : bool, (if b then (sp, @nil dep) else start_begin c sp) =
+              (if b then (sp, []) else start_begin c sp)) by reflexivity.
+  destruct E as [E|E]; rewrite E;
+  destruct (Nat.ltb (length (srs sp)) (wc c) || Nat.ltb (length (ops sp)) (wc c)) eqn:C.
+  - right. split; [exact E|]. apply orb_true_iff in C. destruct C as [C|C]; apply PeanoNat.Nat.ltb_lt in C; cbn [fst]; auto.
+  - left. cbn [start_begin fst snd stat]. split; [reflexivity | eexists; reflexivity].
+  - right. split; [exact E|]. apply orb_true_iff in C. destruct C as [C|C]; apply PeanoNat.Nat.ltb_lt in C; cbn [fst]; auto.
+  - left. cbn [start_begin fst snd stat]. split; [reflexivity | eexists; reflexivity].
+Qed.
+
+Lemma published_is_newer_proof : forall c l o,
+  completed (sto (exec c l)) <= completed (sto (fst (step c (exec c l) o))) /\
+  (o_published (snd (step c (exec c l) o)) <> 0 ->
+   completed (sto (fst (step c (exec c l) o))) = o_published (snd (step c (exec c l) o)) /\
+   completed (sto (exec c l)) < o_published (snd (step c (exec c l) o))).
+Proof. intros c l o. apply step_completed, exec_inv. Qed.
+
+(* T4 *)
+Definition member_ack (s : st) (id : N) (a : op) : Prop :=
+  (exists n, a = OAckOp n id /\ In n (a_ops s)) \/ (exists n, a = OAckSr n id /\ In n (a_srs s)).
+
+Lemma In_false_map : forall n (l : list N), In (n, false) (map (fun m => (m, false)) l) <-> In n l.
+Proof.
+  intros n l. rewrite in_map_iff. split.
+  - intros [m [E H]]. inversion E; subst. exact H.
+  - intros H. exists n. auto.
+Qed.
+
+Lemma checkpoints_resume_proof : forall c l acks,
+  q_keep_pending (qk c) = false -> q_splitters_accumulate (qk c) = false -> (0 < wc c)%nat ->
+  let s := exec c l in
+  stat s = Running -> pend (sto s) = None ->
+  let id := ctr (sto s) + 1 in
+  NoDup acks -> (forall a, In a acks <-> member_ack s id a) ->
+  let s1 := fst (step c s OTick) in
+  let r := run c s1 acks in
+  o_started (snd (step c s OTick)) = a_srs s /\ o_cid (snd (step c s OTick)) = id /\
+  completed (sto s) < id /\
+  pend (sto (fst r)) = None /\ completed (sto (fst r)) = id /\
+  Forall (fun b => o_res b = 0) (snd r) /\ (exists b, In b (snd r) /\ o_published b = id) /\
+  stat (fst r) = Running.
+Proof.
+  intros c l acks Qp Qs Hw s E Pn id ND Hacks s1 r.
+  pose proof (exec_inv c l) as I. fold s in I.
+  assert (T : step c s OTick =
+              (set_sto s (MkStore (Some (MkPending id (map (fun n => (n, false)) (a_ops s)) (map (fun n => (n, false)) (a_srs s))))
+                                  (completed (sto s)) id (splitters (sto s))),
+               MkObs (status_code Running) [] (a_srs s) id 0 0 0)).
+  { cbn [step]. rewrite E. unfold create_checkpoint. rewrite Pn. cbn [set_sto stat]. rewrite E. reflexivity. }
+  unfold r, s1. rewrite T. cbn [fst snd o_started o_cid].
+  split; [reflexivity|]. split; [reflexivity|].
+  pose proof (i_sto _ _ I) as [A _]. split; [unfold id; lia|].
+  destruct (i_asm _ _ I) as [La [Lr [So Sr]]]; [congruence|].
+  destruct (i_spl _ _ I Qs) as [X|Spl]; [congruence|].
+  match goal with |- context [run c ?s0 acks] => set (s0' := s0) end.
+  assert (Hne : acks <> []).
+  { destruct (a_ops s) as [|n t] eqn:Ao; [cbn in La; lia|].
+    intros ->. apply (proj2 (Hacks (OAckOp n id))). left. exists n. split; [reflexivity | rewrite Ao; left; reflexivity]. }
+  destruct (acks_complete c acks s0' (MkPending id (map (fun n => (n, false)) (a_ops s)) (map (fun n => (n, false)) (a_srs s))) id)
+    as [R1 [R2 [R3 [R4 [R5 _]]]]]; auto.
+  - cbn [p_ops]. rewrite map_fst_false. apply sorted_NoDup, So.
+  - cbn [p_srs]. rewrite map_fst_false. apply sorted_NoDup, Sr.
+  - intros a. rewrite Hacks. unfold member_ack, ack_of. cbn [p_ops p_srs].
+    split; intros [[n [-> H]]|[n [-> H]]]; [left|right|left|right]; exists n; (split; [reflexivity|]); apply In_false_map; exact H || (apply In_false_map in H; exact H).
+  - split; [exact R1|]. split; [exact R2|]. split; [exact R3|]. split; [exact R4|]. rewrite R5. exact E.
+Qed.
+
+(* a checkpoint of the running assembly that is already in flight: the acks still missing complete it *)
+Lemma checkpoints_resume_inflight_proof : forall c l p acks,
+  q_keep_pending (qk c) = false -> q_splitters_accumulate (qk c) = false ->
+  let s := exec c l in
+  stat s = Running -> pend (sto s) = Some p ->
+  NoDup acks -> (forall a, In a acks <-> ack_of (p_id p) p a) -> acks <> [] ->
+  (forall a, ack_of (p_id p) p a -> member_ack s (p_id p) a) /\
+  pend (sto (fst (run c s acks))) = None /\ completed (sto (fst (run c s acks))) = p_id p /\
+  Forall (fun b => o_res b = 0) (snd (run c s acks)) /\ stat (fst (run c s acks)) = Running.
+Proof.
+  intros c l p acks Qp Qs s E P ND Hacks Hne. pose proof (exec_inv c l) as I. fold s in I.
+  destruct (i_pnd _ _ I Qp p P) as [Ko Kr].
+  destruct (i_asm _ _ I) as [La [Lr [So Sr]]]; [congruence|].
+  destruct (i_spl _ _ I Qs) as [X|Spl]; [congruence|].
+  split.
+  - intros a [[n [-> H]]|[n [-> H]]]; [left|right]; exists n; (split; [reflexivity|]).
+    + rewrite <- Ko. apply in_map_iff. exists (n, false). auto.
+    + rewrite <- Kr. apply in_map_iff. exists (n, false). auto.
+  - destruct (acks_complete c acks s p (p_id p) P eq_refl Spl) as [R1 [R2 [R3 [R4 [R5 _]]]]]; auto.
+    + rewrite Ko. apply sorted_NoDup, So.
+    + rewrite Kr. apply sorted_NoDup, Sr.
+    + split; [exact R1|]. split; [exact R2|]. split; [exact R3|]. rewrite R5. exact E.
+Qed.
+
+(* ---------------------------------------------------------------- the code before the repairs: computed witnesses *)
+Definition cfg_of (q : quirks) : cfg := MkCfg 1 5000 q.
+(* boot, checkpoint 1 started, the operator leaves, a new one registers, redeploy, tick *)
+Definition hist_d18 : list op := [ORegOp 0; ORegSr 0; OFin true; OTick; ODeregOp 0; ORegOp 1; OFin true].
+(* boot, complete checkpoint 1, the operator leaves, a new one registers, redeploy, tick *)
+Definition hist_d30 : list op := [ORegOp 0; ORegSr 0; OFin true; OTick; OAckOp 0 1; OAckSr 0 1; ODeregOp 0; ORegOp 1; OFin true].
+
+Lemma checkpoints_resume_refuted_keep_pending_proof :
+  let c := cfg_of (MkQuirks true false false) in
+  let s := exec c hist_d18 in
+  stat s = Running /\ a_ops s = [1] /\ a_srs s = [0] /\
+  (* every tick from now on starts nothing, whatever the members of the running assembly acknowledge *)
+  forall k, let s' := fst (run c s (repeat OTick k ++ [OAckOp 1 1; OAckSr 0 1; OAckOp 1 2; OAckSr 0 2; OTick])) in
+            completed (sto s') = 0 /\ o_started (snd (step c s' OTick)) = [].
+Proof.
+  cbv zeta. split; [vm_compute; reflexivity|]. split; [vm_compute; reflexivity|]. split; [vm_compute; reflexivity|].
+  intros k. set (c := cfg_of (MkQuirks true false false)). set (s := exec c hist_d18).
+  assert (T : forall k, fst (run c s (repeat OTick k ++ [OAckOp 1 1; OAckSr 0 1; OAckOp 1 2; OAckSr 0 2; OTick])) =
+                        fst (run c s [OAckOp 1 1; OAckSr 0 1; OAckOp 1 2; OAckSr 0 2; OTick])).
+  { intros j. induction j as [|j IH]; [reflexivity|]. cbn [repeat app]. rewrite <- IH.
+    change (run c s (OTick :: repeat OTick j ++ [OAckOp 1 1; OAckSr 0 1; OAckOp 1 2; OAckSr 0 2; OTick]))
+      with (let '(s1, b) := step c s OTick in let '(s2, bs) := run c s1 (repeat OTick j ++ [OAckOp 1 1; OAckSr 0 1; OAckOp 1 2; OAckSr 0 2; OTick]) in (s2, b :: bs)).
+    assert (E : step c s OTick = (s, mk_obs s [])) by (vm_compute; reflexivity). rewrite E.
+    destruct (run c s (repeat OTick j ++ _)) as [s2 bs]. reflexivity. }
+  rewrite T. vm_compute. split; reflexivity.
+Qed.
+
+Lemma checkpoints_resume_refuted_splitters_proof :
+  let c := cfg_of (MkQuirks false true false) in
+  let s := exec c hist_d30 in
+  stat s = Running /\ a_ops s = [1] /\ a_srs s = [0] /\ pend (sto s) = None /\
+  map o_res (snd (run c s [OTick; OAckOp 1 2; OAckSr 0 2])) = [0; 0; 2] /\
+  completed (sto (fst (run c s [OTick; OAckOp 1 2; OAckSr 0 2]))) = 1.
+Proof. vm_compute. repeat split; reflexivity. Qed.
+
+(* ---------------------------------------------------------------- the operator's checkpoint slot *)
+Lemma oper_barriers_complete : forall id runners w order,
+  NoDup order -> (forall x, In x order <-> In x w) -> order <> [] -> incl w runners -> sorted w ->
+  forall o, o_runners o = runners -> o_slot o = Some (MkSlot id w) ->
+  exists pre_rs, snd (oper_barriers o order id) = pre_rs ++ [2] /\ Forall (fun r => r = 0) pre_rs /\
+                 o_slot (fst (oper_barriers o order id)) = None.
+Proof.
+  intros id runners w order. revert w. induction order as [|x t IH]; intros w ND Hw Hne Hincl Sw o Ho Hs; [contradiction|].
+  inversion ND as [|? ? Hx NDt]; subst.
+  cbn [oper_barriers]. unfold oper_barrier. rewrite Hs. cbn [sl_wait sl_id].
+  assert (Mx : mem x w = true) by (apply mem_In, Hw; left; reflexivity). rewrite Mx. cbn [negb]. rewrite N.eqb_refl. cbn [negb].
+  assert (Hrem : forall y, In y (rem x w) <-> In y t).
+  { intros y. rewrite In_rem. split.
+    - intros [Hy Hn]. apply Hw in Hy. destruct Hy as [->|Hy]; [contradiction | exact Hy].
+    - intros Hy. split; [apply Hw; right; exact Hy | intros ->; contradiction]. }
+  destruct (rem x w) as [|z w'] eqn:R.
+  - assert (t = []). { destruct t as [|y t']; [reflexivity|]. exfalso. apply (proj2 (Hrem y)). left. reflexivity. }
+    subst t. cbn [oper_barriers fst snd o_slot]. exists []. split; [reflexivity|]. split; [constructor | reflexivity].
+  - assert (Ht : t <> []). { intros ->. apply (proj1 (Hrem z)). left. reflexivity. }
+    set (o1 := MkOper (o_runners o) (Some (MkSlot id (z :: w')))).
+    destruct (IH (z :: w') NDt) with (o := o1) as [prs [E1 [E2 E3]]]; auto.
+    + intros y. symmetry. apply Hrem.
+    + intros y Hy. apply Hincl. rewrite <- R in Hy. apply In_rem in Hy. apply Hy.
+    + rewrite <- R. apply sorted_filter. exact Sw.
+    + destruct (oper_barriers o1 t id) as [o2 rs] eqn:OB. cbn [fst snd] in *.
+      exists (0 :: prs). split; [rewrite E1; reflexivity|]. split; [constructor; [reflexivity | exact E2] | exact E3].
+Qed.
+
+Lemma operator_slot_resumes_proof : forall q o runners order id,
+  q_keep_slot q = false -> sorted runners -> runners <> [] ->
+  NoDup order -> (forall x, In x order <-> In x runners) ->
+  let o1 := oper_deploy q o runners in
+  exists pre_rs, snd (oper_barriers o1 order id) = pre_rs ++ [2] /\ Forall (fun r => r = 0) pre_rs /\
+                 o_slot (fst (oper_barriers o1 order id)) = None.
+Proof.
+  intros q o runners order id Q Sr Hne ND Ho o1.
+  assert (Hord : order <> []).
+  { destruct runners as [|r rs]; [contradiction|]. intros ->. apply (proj2 (Ho r)). left. reflexivity. }
+  destruct order as [|x t]; [contradiction|]. inversion ND as [|? ? Hx NDt]; subst.
+  unfold o1, oper_deploy. rewrite Q. cbn [oper_barriers]. unfold oper_barrier. cbn [o_slot o_runners].
+  assert (Hrem : forall y, In y (rem x runners) <-> In y t).
+  { intros y. rewrite In_rem. split.
+    - intros [Hy Hn]. apply Ho in Hy. destruct Hy as [->|Hy]; [contradiction | exact Hy].
+    - intros Hy. split; [apply Ho; right; exact Hy | intros ->; contradiction]. }
+  destruct (rem x runners) as [|z w'] eqn:R.
+  - assert (t = []). { destruct t as [|y t']; [reflexivity|]. exfalso. apply (proj2 (Hrem y)). left. reflexivity. }
+    subst t. cbn [oper_barriers fst snd o_slot]. exists []. split; [reflexivity|]. split; [constructor | reflexivity].
+  - assert (Ht : t <> []). { intros ->. apply (proj1 (Hrem z)). left. reflexivity. }
+    set (o2 := MkOper runners (Some (MkSlot id (z :: w')))).
+    destruct (oper_barriers_complete id runners (z :: w') t NDt) with (o := o2) as [prs [E1 [E2 E3]]]; auto.
+    + intros y. symmetry. apply Hrem.
+    + intros y Hy. rewrite <- R in Hy. apply In_rem in Hy. apply Hy.
+    + rewrite <- R. apply sorted_filter. exact Sr.
+    + destruct (oper_barriers o2 t id) as [o3 rs] eqn:OB. cbn [fst snd] in *.
+      exists (0 :: prs). split; [rewrite E1; reflexivity|]. split; [constructor; [reflexivity | exact E2] | exact E3].
+Qed.
+
+Lemma operator_slot_refuted_proof :
+  let o1 := fst (oper_barriers (oper_deploy original (MkOper [] None) [0; 1]) [0] 4) in
+  snd (oper_barriers (oper_deploy original o1 [0; 1]) [1; 0] 6) = [1; 3].
+Proof. vm_compute. reflexivity. Qed.
